@@ -16,7 +16,8 @@ pub enum Op {
     /// subscription index, which sequence number: 0 a sent and unacknowledged one, 1 an acknowledged one, 2 never sent
     Republish(u8, u8, u8),
     /// publish request with up to three acknowledgements, each (subscription index, kind, pick):
-    /// kind 0 valid, 1 already acknowledged, 2 unknown sequence number, 3 unknown subscription
+    /// kind 0 valid, 1 already acknowledged, 2 unknown sequence number, 3 unknown subscription, 4 the same pair as an earlier
+    /// valid acknowledgement of this very request (the first one makes it unknown for the second)
     Publish(Vec<(u8, u8, u8)>),
     Tick,
 }
@@ -27,7 +28,7 @@ fn op() -> impl Strategy<Value = Op> {
         1 => (0u8..3).prop_map(Op::DeleteSub),
         8 => (0u8..3).prop_map(Op::Produce),
         8 => (0u8..3, prop_oneof![3 => Just(0u8), 2 => Just(1u8), 1 => Just(2u8)], any::<u8>()).prop_map(|(s, k, p)| Op::Republish(s, k, p)),
-        6 => prop::collection::vec((0u8..3, prop_oneof![4 => Just(0u8), 1 => Just(1u8), 1 => Just(2u8), 1 => Just(3u8)], any::<u8>()), 0..4).prop_map(Op::Publish),
+        6 => prop::collection::vec((0u8..3, prop_oneof![4 => Just(0u8), 1 => Just(1u8), 1 => Just(2u8), 1 => Just(3u8), 2 => Just(4u8)], any::<u8>()), 0..4).prop_map(Op::Publish),
         2 => Just(Op::Tick),
     ]
 }
@@ -205,6 +206,12 @@ fn run(ctx: &Ctx, ops: &Vec<Op>) -> PResult {
                             list.push((s.id, s.acked[*pick as usize % s.acked.len()]));
                             want.push(StatusCode::BadSequenceNumberUnknown);
                         }
+                        4 if !to_ack.is_empty() => {
+                            let (k2, seq) = to_ack[*pick as usize % to_ack.len()];
+                            list.push((m.subs[k2].id, seq));
+                            want.push(StatusCode::BadSequenceNumberUnknown);
+                            ctx.class("duplicate_acknowledgement_in_one_request");
+                        }
                         3 => {
                             list.push((4_000_000 + *pick as u32, 1));
                             want.push(StatusCode::BadSubscriptionIdInvalid);
@@ -248,7 +255,7 @@ fn run(ctx: &Ctx, ops: &Vec<Op>) -> PResult {
 pub fn def() -> PropDef {
     PropDef {
         id: "C40",
-        rule: "histories of up to 47 operations on one session with up to 3 subscriptions (one item each): produce a data notification (at most two unacknowledged per subscription), republish a sent / acknowledged / never-sent sequence number, publish requests carrying up to three acknowledgements (valid, already acknowledged, unknown sequence number, unknown subscription), delete a subscription, idle ticks; model: sent-and-unacknowledged (subscription, sequence number) -> original message; oracle: republish returns a message equal to the original while the pair is in the set, BadMessageNotAvailable after a Good acknowledgement or for unknown numbers, acknowledgement results are Good / BadSequenceNumberUnknown / BadSubscriptionIdInvalid as the model says and leave the other members republishable; non-trivial = a republish of an unacknowledged notification after an acknowledgement of a different one; distinct = distinct history",
+        rule: "histories of up to 47 operations on one session with up to 3 subscriptions (one item each): produce a data notification (at most two unacknowledged per subscription), republish a sent / acknowledged / never-sent sequence number, publish requests carrying up to three acknowledgements (valid, already acknowledged, the same pair twice in one request, unknown sequence number, unknown subscription), delete a subscription, idle ticks; model: sent-and-unacknowledged (subscription, sequence number) -> original message; oracle: republish returns a message equal to the original while the pair is in the set, BadMessageNotAvailable after a Good acknowledgement or for unknown numbers, acknowledgement results are Good / BadSequenceNumberUnknown / BadSubscriptionIdInvalid as the model says and leave the other members republishable; non-trivial = a republish of an unacknowledged notification after an acknowledgement of a different one; distinct = distinct history",
         assumptions: &[
             "eviction is allowed by the property: availability of an unacknowledged notification is asserted only while the retention queue (which also holds keep-alives) never reached its capacity of 4 x subscriptions during the history",
             "keep-alive messages are not notifications and are not modelled",
